@@ -235,14 +235,15 @@ theorem C19_reader_template :
    Inst.ReaderTmpl.body_next_eq, Inst.ReaderTmpl.body_Next_eq, Inst.ReaderTmpl.body_Retract_eq, Inst.ReaderTmpl.body_Lexeme_eq,
    Inst.ReaderTmpl.body_Skip_eq, Inst.ReaderTmpl.sentinel_is_nul, Inst.ReaderTmpl.class_eq⟩
 
-/-- The emitted lexer's `New`, `NextToken`, `evalToken`, its constants and the two table templates read, statement for
+/-- The emitted lexer's `New`, `NextToken`, `scanToken`, `evalToken`, its constants and the two table templates read, statement for
     statement, as the ones `Emerge.Emitted` (and `Emerge.Lexgen`, C08) model. -/
 theorem C19_lexer_template :
-    Gen.LexerTmpl.body_NextToken = Ref.LexerTmpl.body_NextToken ∧ Gen.LexerTmpl.body_evalToken = Ref.LexerTmpl.body_evalToken ∧
+    Gen.LexerTmpl.body_NextToken = Ref.LexerTmpl.body_NextToken ∧ Gen.LexerTmpl.body_scanToken = Ref.LexerTmpl.body_scanToken ∧
+    Gen.LexerTmpl.body_evalToken = Ref.LexerTmpl.body_evalToken ∧
     Gen.LexerTmpl.body_New = Ref.LexerTmpl.body_New ∧ Gen.LexerTmpl.const_errorState = "-1" ∧
     Gen.LexerTmpl.const_bufferSize = "4096" ∧ Gen.LexerTmpl.tmpl_evalDFA = Ref.LexerTmpl.tmpl_evalDFA ∧
     Gen.LexerTmpl.tmpl_advanceDFA = Ref.LexerTmpl.tmpl_advanceDFA :=
-  ⟨Inst.LexerTmpl.body_NextToken_eq, Inst.LexerTmpl.body_evalToken_eq, Inst.LexerTmpl.body_New_eq, rfl, rfl,
+  ⟨Inst.LexerTmpl.body_NextToken_eq, Inst.LexerTmpl.body_scanToken_eq, Inst.LexerTmpl.body_evalToken_eq, Inst.LexerTmpl.body_New_eq, rfl, rfl,
    Inst.LexerTmpl.tmpl_evalDFA_eq, Inst.LexerTmpl.tmpl_advanceDFA_eq⟩
 
 end Emerge.Props.C19
